@@ -407,6 +407,10 @@ def check(run):
         del run.rules[x]
     run.assumptions += ["that the table cell holds the right class's v-table pointer is decided by publishing rules (C05-publish, C10-allids) and is a run-time value otherwise",
                         "equality of run-time dispatch results is not observed; methods read a virtual_ptr argument only through _vptr() (C01-walk leaf)"]
+    # a virtual_ptr handed to a definition is converted, never re-read as another type: the object pointer inside it is adjusted by
+    # a derived<->base or dynamic cast (get / * / -> then give back the original object under multiple inheritance too)
+    from . import c11_ast
+    c11_ast.check(run, rule="C09-casts", only_casts=True)
     from .. import crules as _cr
     _cr.facet_rules(run, "C09-facets")
     return run.finish(level="other", explanation="IR symbolic summaries of the value stored in the v-table-pointer field by every construction route of the witness matrix "
